@@ -1,6 +1,6 @@
 SPECIFICATION Spec
 CONSTANTS
-  Sizes = {0, 1, 8191, 8192, 8193}
+  Sizes = {0, 1, 8192, 8193, 16385, 70000}
   MaxCalls = 5
   IgnoreEmptyWrites = TRUE
 INVARIANT ZeroChunkOnlyTerminates
